@@ -59,23 +59,19 @@ theorem suf2_off (off : Off) (h : off.Spaced) : Suf2 (Info.default df yf year ce
     exact ⟨_, _, rfl, by decide, by simp, by simp⟩
 end
 
-/-- **the schema**: lexing of `str` followed by the suffix, the scan over the core tokens with the suffix tokens
-    behind them, and the finish on the scan's result give `parse` on `str ++ suffix` for that suffix. -/
-theorem tpl_theorem (cls : Char → CClass) [AsciiOK cls] (df yf : Bool) (year century : Int) (o : Opts) (tznames : List Token)
-    (tzi : TzInfos) (ho : StrictOpts o tzi) (dflt : DT) (str : List Char) (core : List Token) (n : Nat) (hn : core.length = n)
+/-- the schema at token level: the scan over the core tokens with the suffix tokens behind them, and the finish -/
+theorem tok_theorem (cls : Char → CClass) [AsciiOK cls] (df yf : Bool) (year century : Int) (o : Opts) (tznames : List Token)
+    (tzi : TzInfos) (ho : StrictOpts o tzi) (dflt : DT) (core : List Token) (n : Nat) (hn : core.length = n)
     (rC : Res) (yC : Ymd) (skC : List Nat) (dt : DT) (off : Off) (hoff : off.Dom)
-    (hlex : scan cls .init (str ++ off.render) = core ++ scan cls .init off.render)
     (hcore : parseLoop cls (Info.default df yf year century) false ((offTokens off).length + n) ((offTokens off).length + n) 0 0
         { l := core ++ offTokens off } =
       parseLoop cls (Info.default df yf year century) false ((offTokens off).length + n) (offTokens off).length n 0
         { l := core ++ offTokens off, res := rC, ymd := yC, skipped := skC })
     (htn : rC.tzname = none) (hto : rC.tzoffset = none) (hhour : rC.hour.isSome = true ∨ off = .naive)
     (hfin : finishOf (Info.default df yf year century) o tznames tzi dflt yC rC = .ok { dt := dt, tz := .naive, tokens := none }) :
-    parse cls (Info.default df yf year century) o tznames tzi dflt (str ++ off.render) =
+    parseResult cls (Info.default df yf year century) o tznames tzi dflt (core ++ offTokens off) =
       .ok { dt := dt, tz := offZone o tznames off, tokens := none } := by
   obtain ⟨hfz, hfwt, htz1, htz2⟩ := ho
-  unfold parse lex
-  rw [hlex, lex_off]
   have hlen : (core ++ offTokens off).length = (offTokens off).length + n := by simp [hn]; omega
   rcases hhour with hhour | hnaive
   · have hloop : parseLoop cls (Info.default df yf year century) false (core ++ offTokens off).length
@@ -95,5 +91,23 @@ theorem tpl_theorem (cls : Char → CClass) [AsciiOK cls] (df yf : Bool) (year c
     rw [parseResult_of_loop cls _ o tznames tzi dflt _ _ hfz hfwt hloop]
     simp only [hfin, offZone, offDescr, Off.seconds]
     by_cases hig : o.ignoretz = true <;> simp [hig]
+
+/-- **the schema**: lexing of `str` followed by the suffix, the scan over the core tokens with the suffix tokens
+    behind them, and the finish on the scan's result give `parse` on `str ++ suffix` for that suffix. -/
+theorem tpl_theorem (cls : Char → CClass) [AsciiOK cls] (df yf : Bool) (year century : Int) (o : Opts) (tznames : List Token)
+    (tzi : TzInfos) (ho : StrictOpts o tzi) (dflt : DT) (str : List Char) (core : List Token) (n : Nat) (hn : core.length = n)
+    (rC : Res) (yC : Ymd) (skC : List Nat) (dt : DT) (off : Off) (hoff : off.Dom)
+    (hlex : scan cls .init (str ++ off.render) = core ++ scan cls .init off.render)
+    (hcore : parseLoop cls (Info.default df yf year century) false ((offTokens off).length + n) ((offTokens off).length + n) 0 0
+        { l := core ++ offTokens off } =
+      parseLoop cls (Info.default df yf year century) false ((offTokens off).length + n) (offTokens off).length n 0
+        { l := core ++ offTokens off, res := rC, ymd := yC, skipped := skC })
+    (htn : rC.tzname = none) (hto : rC.tzoffset = none) (hhour : rC.hour.isSome = true ∨ off = .naive)
+    (hfin : finishOf (Info.default df yf year century) o tznames tzi dflt yC rC = .ok { dt := dt, tz := .naive, tokens := none }) :
+    parse cls (Info.default df yf year century) o tznames tzi dflt (str ++ off.render) =
+      .ok { dt := dt, tz := offZone o tznames off, tokens := none } := by
+  unfold parse lex
+  rw [hlex, lex_off]
+  exact tok_theorem cls df yf year century o tznames tzi ho dflt core n hn rC yC skC dt off hoff hcore htn hto hhour hfin
 
 end PM
